@@ -8,6 +8,7 @@ import (
 	"os"
 	"os/exec"
 	"path/filepath"
+	"sort"
 	"strconv"
 	"strings"
 	"sync"
@@ -223,6 +224,15 @@ func c08Gen(r *common.Rand, reg c14Registry, kf03Open bool, realClock bool, firs
 				fams[f] = c14RandGc(r)
 			}
 		}
+		switch r.Intn(8) {
+		case 0:
+			fams = map[string]*model.GcRule{} // a table without any family
+		case 1, 2:
+			// a table with a single family: dropping it leaves a table without families whose rows still hold
+			// cells until the purge is through
+			f := common.Pick(r, c14FamPool[:3])
+			fams = map[string]*model.GcRule{f: c14RandGc(r)}
+		}
 		// half of the re-creations use exactly the definition the table had when it was deleted
 		if prev, ok := firstDef[name]; ok && r.Bool() {
 			fams = prev // the definition the table had when it was deleted
@@ -255,6 +265,11 @@ func c08Gen(r *common.Rand, reg c14Registry, kf03Open bool, realClock bool, firs
 			apply: func(reg c14Registry) { delete(reg, name) }}
 	case k < 4:
 		f := common.Pick(r, c14FamPool[:3])
+		if len(m.Families) == 1 && r.Bool() {
+			for only := range m.Families {
+				f = only
+			}
+		}
 		_, has := m.Families[f]
 		g := c14RandGc(r)
 		switch {
@@ -444,7 +459,7 @@ func c08VerifyImage(tag, image string, candidates []c14Registry) string {
 	for _, reg := range candidates {
 		m := c14CheckAll(s.srv, reg)
 		if m == "" {
-			return ""
+			return c08HiddenStateProbe(s.srv, reg)
 		}
 		msgs = append(msgs, m)
 	}
@@ -454,8 +469,40 @@ func c08VerifyImage(tag, image string, candidates []c14Registry) string {
 	return "state after restart is neither the state before the in-flight request (" + msgs[0] + ") nor the state after it (" + msgs[1] + ")"
 }
 
+// c08HiddenStateProbe: what a restarted server SHOWS can equal the acknowledged state while it still HOLDS remains of
+// what was removed (cells of a dropped family that are merely not displayed, a half-initialised definition). The image
+// is a throw-away copy, so the probe may write: on every table each family of the pool that the table does not have is
+// created (a valid request: it must succeed, and the server must survive it), and afterwards the whole observable state
+// must be the acknowledged state plus those empty families - no cell may surface in them.
+func c08HiddenStateProbe(srv *drive.Srv, reg c14Registry) string {
+	probe := c08CloneReg(reg)
+	var names []string
+	for name := range probe {
+		names = append(names, name)
+	}
+	sort.Strings(names)
+	for _, name := range names {
+		for _, fam := range []string{"f1", "f", "g", "f12", "f2"} {
+			if _, has := probe[name].Families[fam]; has {
+				continue
+			}
+			ctx, cancel := drive.Ctx()
+			_, err := srv.Admin.ModifyColumnFamilies(ctx, &btapb.ModifyColumnFamiliesRequest{Name: name, Modifications: []*btapb.ModifyColumnFamiliesRequest_Modification{{Id: fam, Mod: &btapb.ModifyColumnFamiliesRequest_Modification_Create{Create: &btapb.ColumnFamily{}}}}})
+			cancel()
+			if err != nil {
+				return fmt.Sprintf("after the restart, creating family %q on %s (a valid request) failed: %v", fam, name, err)
+			}
+			probe[name].Families[fam] = nil
+		}
+	}
+	if m := c14CheckAll(srv, probe); m != "" {
+		return "after the restart the served state equalled the acknowledged one, but creating the families the tables do not have brought something back: " + m
+	}
+	return ""
+}
+
 func runC08(run *common.Run) {
-	run.Rule = "case = one crash image of the on-disk storage directory of a child emulator process driven by a generated admin+data program (CreateTable with GC rules, MutateRow, DropRowRange prefix/all, ModifyColumnFamilies create/update/drop and multi-modification requests, DeleteTable, re-create): (boundary) the process is frozen with SIGSTOP between two requests and the directory copied; (point) the process freezes itself at an instrumented point inside SetTableMeta / Create / Clear / the row-by-row purge of a dropped family while a request is in flight, the directory is copied and the process killed; (cycle) after such a kill the live directory is restarted and the program continues, up to 5 times; (clean) clean Server.Close stop; (real) the real cbtemulator -dir binary killed with SIGKILL between requests and restarted; (syskill) the child runs under strace and is killed at its N-th unlinkat / rename / mkdir system call, N = 1, 2, ..., over one program in which every fourth request clears a table, and at its N-th write / pwrite64 system call over a program that stores 33-100 KiB values (journal records spanning several write calls), then restarted. (adminrace) a ModifyColumnFamilies request is parked inside its metadata write while DeleteTable (and a re-creation) is acknowledged, then released; running process and a restart must agree with a serial order. Each image is verified by starting a fresh emulator process on a private copy: it must come up, and ListTables/GetTable/full scans/NotFound probes must equal the acknowledged model, the in-flight request being wholly applied or wholly absent. Non-trivial = image taken when the model held at least one table with rows and either a request was in flight or an earlier request had removed something (rows, family, table); distinct by image."
+	run.Rule = "case = one crash image of the on-disk storage directory of a child emulator process driven by a generated admin+data program (CreateTable with GC rules, MutateRow, DropRowRange prefix/all, ModifyColumnFamilies create/update/drop and multi-modification requests, DeleteTable, re-create): (boundary) the process is frozen with SIGSTOP between two requests and the directory copied; (point) the process freezes itself at an instrumented point inside SetTableMeta / Create / Clear / the row-by-row purge of a dropped family while a request is in flight, the directory is copied and the process killed; (cycle) after such a kill the live directory is restarted and the program continues, up to 5 times; (clean) clean Server.Close stop; (real) the real cbtemulator -dir binary killed with SIGKILL between requests and restarted; (syskill) the child runs under strace and is killed at its N-th unlinkat / rename / mkdir system call, N = 1, 2, ..., over one program in which every fourth request clears a table, and at its N-th write / pwrite64 system call over a program that stores 33-100 KiB values (journal records spanning several write calls), then restarted. (dropgrid) the complete grid {1, 2, 3 families} x {family dropped} x {every crash point of a family drop incl. the 1st-3rd purged row}; (adminrace) a ModifyColumnFamilies request is parked inside its metadata write while DeleteTable (and a re-creation) is acknowledged, then released; running process and a restart must agree with a serial order. Each image is verified by starting a fresh emulator process on a private copy: it must come up, and ListTables/GetTable/full scans/NotFound probes must equal the acknowledged model, the in-flight request being wholly applied or wholly absent; then, on that throw-away copy, every pool family a table lacks is created and nothing may surface in it (remains of dropped families that are merely not displayed). Non-trivial = image taken when the model held at least one table with rows and either a request was in flight or an earlier request had removed something (rows, family, table); distinct by image."
 	run.Assumptions = []string{"process death only (SIGSTOP image = what kill -9 leaves: completed syscalls persist); power loss / unsynced page cache is out of scope", "crash points = request boundaries + the instrumented points; kills inside leveldb's own write path are not enumerated"}
 	nprog := run.N(12, 300)
 	scratch, err := os.MkdirTemp("", "verif-c08-")
@@ -470,6 +517,9 @@ func runC08(run *common.Run) {
 				c08AdminRace(run, p, filepath.Join(scratch, fmt.Sprintf("ar%d", p)))
 			}
 		})
+	}
+	if run.WantSub("dropgrid") {
+		c08DropGrid(run, filepath.Join(scratch, "dropgrid"))
 	}
 	run.Canary("KF03", func() (bool, string) { return c08DropFamilyCanary(filepath.Join(scratch, "kf03")) })
 	j := common.NewJournal("C08")
@@ -919,6 +969,95 @@ func c08AdminRace(run *common.Run, p int, dir string) {
 	}
 	run.Case(common.Hash64("adminrace", fmt.Sprint(steps)), true)
 	run.Count("admin_races", 1)
+}
+
+// c08DropGrid: the complete grid {table with 1, 2, 3 families} x {family to drop} x {every crash point of a family drop,
+// purge.afterRow at the 1st, 2nd and 3rd purged row} on a table whose rows all hold cells in every family: the image is
+// verified (wholly applied or wholly absent) and then probed for hidden remains (c08HiddenStateProbe).
+func c08DropGrid(run *common.Run, base string) {
+	type pt struct {
+		point string
+		nth   int
+	}
+	points := []pt{{"disk.meta.enter", 1}, {"disk.meta.afterMkdir", 1}, {"disk.meta.afterTmp", 1}, {"disk.meta.afterRename", 1}, {"purge.afterRow", 1}, {"purge.afterRow", 2}, {"purge.afterRow", 3}}
+	famSets := [][]string{{"f1"}, {"f1", "f"}, {"f1", "f", "g"}}
+	type job struct {
+		fams []string
+		drop string
+		p    pt
+	}
+	var jobs []job
+	for _, fs := range famSets {
+		for _, d := range fs {
+			for _, p := range points {
+				jobs = append(jobs, job{fs, d, p})
+			}
+		}
+	}
+	common.Parallel(len(jobs), 6, func(i int) {
+		if !run.Want("dropgrid", i) || run.TooMany() {
+			return
+		}
+		jb := jobs[i]
+		dir := filepath.Join(base, fmt.Sprintf("dg%d", i))
+		live := filepath.Join(dir, "live")
+		_ = os.MkdirAll(live, 0o777)
+		defer os.RemoveAll(dir)
+		s, msg := c08Start(fmt.Sprintf("dg%d", i), live)
+		if s == nil {
+			run.Violation("dropgrid", i, "cannot start child: "+msg, nil)
+			return
+		}
+		defer func() { s.stop() }()
+		name := drive.TableName(c14Parents[0], "t")
+		fams := map[string]*model.GcRule{}
+		for _, f := range jb.fams {
+			fams[f] = nil
+		}
+		drive.CreateTable(s.srv.Admin, c14Parents[0], "t", fams)
+		pre := c14Registry{name: model.NewTable(jb.fams...)}
+		for _, k := range []string{"a", "b", "c", "d"} {
+			var muts []model.Mut
+			for _, f := range jb.fams {
+				muts = append(muts, model.Mut{Kind: model.SetCell, Fam: f, Qual: "q", TS: 1000, Val: "cell-" + f + "-" + k})
+			}
+			drive.MutateRow(s.srv.Data, name, k, muts)
+			_, nr := pre[name].Apply(k, muts, gen.BaseClock)
+			pre[name].Commit(k, nr)
+		}
+		post := c08CloneReg(pre)
+		delete(post[name].Families, jb.drop)
+		for k, row := range post[name].Rows {
+			delete(row, jb.drop)
+			post[name].Commit(k, row)
+		}
+		desc := fmt.Sprintf("table with families %v and 4 rows; ModifyColumnFamilies(drop %s) killed at %s #%d", jb.fams, jb.drop, jb.p.point, jb.p.nth)
+		s.child.send(fmt.Sprintf("arm %s %d", jb.p.point, jb.p.nth))
+		s.child.readLine(30 * time.Second)
+		go func() {
+			ctx, cancel := drive.Ctx()
+			defer cancel()
+			s.srv.Admin.ModifyColumnFamilies(ctx, &btapb.ModifyColumnFamiliesRequest{Name: name, Modifications: []*btapb.ModifyColumnFamiliesRequest_Modification{{Id: jb.drop, Mod: &btapb.ModifyColumnFamiliesRequest_Modification_Drop{Drop: true}}}})
+		}()
+		if l, _ := s.child.readLine(60 * time.Second); !strings.HasPrefix(l, "STOPPED") {
+			run.Count("dropgrid_point_not_reached", 1)
+			return
+		}
+		if !waitStopped(s.child.cmd.Process.Pid, 30*time.Second) {
+			run.Inconclusive("child did not stop")
+			return
+		}
+		img := filepath.Join(dir, "img")
+		if err := copyDir(live, img); err != nil {
+			run.Inconclusive("copy failed: " + err.Error())
+			return
+		}
+		if m := c08VerifyImage(fmt.Sprintf("dgv%d", i), img, []c14Registry{pre, post}); m != "" {
+			run.Violation("dropgrid", i, m+" | "+desc, map[string]any{"case": desc})
+		}
+		run.Case(common.Hash64("dropgrid", desc), true)
+		run.Count("drop_grid_images", 1)
+	})
 }
 
 // c08RealBinary drives the real `cbtemulator -dir` binary (built from /repo by ./check, no hooks): SIGKILL between
